@@ -24,7 +24,7 @@ CHECKS = {
          "Reopened content is identified by canonical hash against the table of all prefix states; caught-up closes must yield exactly all batches, early/mid closes a prefix not older than what the store had exposed. One case in five reopens without waiting for the closed instance's asynchronous unlinks.",
          "Caught-up = 3 directed merger+persister iterations after the last batch (decided by steps, not by gauges).", "3/C04"),
  "C07": ("exploration", "steered persistence rounds + store-content / post-compaction shape monitors + directory check at quiescence",
-         "After every completed round the store snapshot must be a non-decreasing prefix state; after each full compaction no deletion marker, no repeated key, nothing above segment level 0, num_segments <= 1 (recursively in children); at the end exactly one data file.", "Round kind is read from Store.Stats deltas. KF-02 (child footers never released) is a recorded known finding.", "3/C07"),
+         "After every completed round the store snapshot must be a non-decreasing prefix state; after each full compaction no deletion marker, no repeated key, nothing above segment level 0, num_segments <= 1 (recursively in children); at the end exactly one data file.", "Round kind is read from Store.Stats deltas.", "3/C07"),
  "C08": ("exploration", "steered execution + left-fold model with an order-sensitive, nil-revealing merge operator",
          "Get and iterator values of merged keys are compared with the model fold after every step and after reopen, for operands spread over sections, persisted segments, compactions, custom lower level and child collections.", "The operator is the harness's own; PartialMerge always refuses.", "3/C08"),
  "C10": ("exploration", "steered execution + cross-read-path agreement monitor",
@@ -34,9 +34,9 @@ CHECKS = {
  "C13": ("exploration", "steered execution against a map-backed application lower level + prefix/monotonicity monitor, injected LowerLevelUpdate failures",
          "The application lower level (updated by the documented protocol) must equal a non-decreasing prefix state after every step and the full content after draining, under single/burst/alternating update failures.", "Top-level keys only (the write-back protocol does not expose child incarnations).", "3/C13"),
  "C15": ("exploration", "steered execution + handle re-read monitor + /proc/self/fd, /proc/self/maps and directory inspection at quiescence",
-         "Handles of every kind are re-read after every step (faults trapped); after everything is closed and no moss goroutine is runnable, no descriptor or mapping of the unique store directory may remain and the directory must hold exactly one data file.", "Quiescence is decided from runtime.Stack goroutine states. KF-01 (child footers never released) is a recorded known finding.", "3/C15"),
+         "Handles of every kind are re-read after every step (faults trapped); after everything is closed and no moss goroutine is runnable, no descriptor or mapping of the unique store directory may remain and the directory must hold exactly one data file.", "Quiescence is decided from runtime.Stack goroutine states.", "3/C15"),
  "C20": ("exploration", "steered execution + Stats() sampling vs lower-level content monitor",
-         "Whenever the dirty gauges are all zero with n>0 batches executed, the lower level's own content (Store.Snapshot / application map) must equal the full reference content; after draining the gauges must be zero.", "KF-03 (gauges ignore child collections) is a recorded known finding; the run continues past it.", "3/C20"),
+         "Whenever the dirty gauges are all zero with n>0 batches executed, the lower level's own content (Store.Snapshot / application map) must equal the full reference content; after draining the gauges must be zero.", "KF-03 (a pending creation of an empty child collection or deletion of a child collection cannot show in any gauge) is a recorded known finding, matched only when the lower level lacks nothing but such structural changes; the run continues past it.", "3/C20"),
 }
 
 NOT_YET = {
